@@ -97,6 +97,10 @@ class Check:
     def entry_of(self, case):
         return self.entry
 
+    def extra(self, tier, seed):
+        """additional tie between the model and the runtime; returns {"evaluations": n, "problems": [...], "what": str}"""
+        return None
+
     def in_domain(self, case, mobs):
         """False when the model says the case is outside the property's domain (counted, skipped)."""
         return True
@@ -329,6 +333,13 @@ def run_check(chk, tier, seed, replay=None, max_report=5):
         except Exception as e:
             kernel_problem = "%s: %s" % (type(e).__name__, str(e)[:300])
 
+    # ---- extra ties (e.g. primitive-level correspondence of the model's CPython/numpy primitives)
+    extra = None
+    try:
+        extra = chk.extra(tier, seed)
+    except Exception as e:
+        extra = {"evaluations": 0, "problems": ["%s: %s" % (type(e).__name__, str(e)[:200])], "what": "extra tie failed to run"}
+
     # ---- C. failing-input search
     reported = set()
 
@@ -390,6 +401,8 @@ def run_check(chk, tier, seed, replay=None, max_report=5):
             unresolved = ("model-run", {"error": model_error})
         elif kernel_problem:
             unresolved = ("kernel-crosscheck", {"error": kernel_problem})
+        elif extra and extra.get("problems"):
+            unresolved = ("primitive-correspondence", {"what": extra.get("what"), "problems": extra["problems"][:5]})
         elif diffs:
             i, d = diffs[0]
             unresolved = ("correspondence", {"first_differing_case": cases[i], "difference": d,
@@ -447,6 +460,7 @@ def run_check(chk, tier, seed, replay=None, max_report=5):
             "oracle_failures": len(oracle_fail),
             "kernel_crosschecked": kernel_checked,
             "neighbourhood_searched": searched,
+            "extra_tie": extra,
             "input_distribution": dist,
             "known_findings_hit": known_hits,
             "exhaustive": bool(chk.exhaustive),
